@@ -46,6 +46,8 @@ type pamCase struct {
 	SockLen int `json:"sock_len,omitempty"`
 	// Errno: the value of errno when the host application calls the module (left over from an unrelated earlier call)
 	Errno int `json:"errno,omitempty"`
+	// ClockStep: the host's wall clock is set back by this many seconds while the module runs; its timeout is a duration, not a date
+	ClockStep int `json:"clock_step,omitempty"`
 	// SignalMS > 0: the host process receives a (handled, non-restarting) signal every that many milliseconds
 	SignalMS int `json:"signal_ms,omitempty"`
 	// SendMax > 0: every send() of the module transfers at most that many bytes (short writes)
@@ -112,6 +114,9 @@ func genPamCase(t *rapid.T) pamCase {
 	c.SendMax = rapid.SampledFrom([]int{0, 0, 0, 0, 1, 2, 3, 7, 100}).Draw(t, "sendmax")
 	c.SignalMS = rapid.SampledFrom([]int{0, 0, 0, 0, 0, 150, 300, 700}).Draw(t, "signalms")
 	c.Errno = rapid.SampledFrom([]int{0, 0, 0, 4 /*EINTR*/, 4, 11 /*EAGAIN*/, 32 /*EPIPE*/, 110 /*ETIMEDOUT*/, 2}).Draw(t, "errno")
+	if c.ClockStep = rapid.SampledFrom([]int{0, 0, 0, 0, 3600, 100000}).Draw(t, "clockstep"); c.ClockStep > 0 {
+		vlib.Class("host-wall-clock-stepped-back-while-the-module-runs")
+	}
 	if rapid.IntRange(0, 7).Draw(t, "silent") == 0 {
 		c.Flags = 0x8000
 	}
@@ -318,6 +323,9 @@ func runPam(c pamCase) (runResult, error) {
 	}
 	if c.Errno > 0 {
 		cmd.Env = append(cmd.Env, fmt.Sprintf("PAMDRV_ERRNO=%d", c.Errno))
+	}
+	if c.ClockStep > 0 {
+		cmd.Env = append(cmd.Env, fmt.Sprintf("PAMDRV_CLOCK_STEP=%d", c.ClockStep))
 	}
 	var gateR, gateW *os.File
 	var childEnds []*os.File
